@@ -10,8 +10,26 @@ import (
 func VHarness_C01_unauthorised_no_effect() {
 	n := VBound("N", 2)
 	vWorldSetup(n, true)
-	pos := VNondetRange("pos", 0, n)
-	ukind := VNondetRange("ukind", 0, 3)
+	vC01Metamorphic(n, VNondetRange("pos", 0, n), VNondetRange("ukind", 0, 3))
+}
+
+// VHarness_C01_unauthorised_in_chain: the same relation one operation deeper, on the histories where an
+// unauthorised candidate sits among the candidates of a commitment chain: create followed by N-1
+// update/recover operations, and an unauthorised update/recover inserted anywhere after the create.
+func VHarness_C01_unauthorised_in_chain() {
+	n := VBound("N", 3)
+	if VBound("MIX", 0) == 1 {
+		vWorldSetupTypes(n, true, 1, 2)
+		vC01Metamorphic(n, VNondetRange("pos", 1, n), VNondetRange("ukind", 1, 2))
+		return
+	}
+	// quick bound: the chain and the inserted operation are all updates or all recovers
+	k := VNondetRange("kind", 1, 2)
+	vWorldSetupTypes(n, true, k, k)
+	vC01Metamorphic(n, VNondetRange("pos", 1, n), k)
+}
+
+func vC01Metamorphic(n, pos, ukind int) {
 	u := vNewRec(vOpType(ukind))
 	VAssume(vCommit(u.reveal) != "")
 	ui := len(vW.recs)
